@@ -13,8 +13,8 @@ for l in (ROOT / "tools" / "not_applicable.txt").read_text().splitlines():
 props = [json.loads(l)["id"] for l in (ROOT / "properties.jsonl").read_text().splitlines()]
 TECH = {
     "proof": "contract-based deductive verification: VCs generated from /repo's source by pyvc (sidecar contracts), discharged by z3",
-    "other": "contract-based deductive verification of the evaluator functions (pyvc + z3) + bounded run-time contract check of the parser tie-in",
-    "exploration": "bounded stand-in: run-time contract check over an exhaustive bounded enumeration against an RFC-derived oracle (function outside the deductive verifier's reach)",
+    "other": "contract-based deductive verification of the real functions the property rests on (sidecar contracts, VCs generated from /repo's source by pyvc, discharged by z3) + bounded run-time contract check of what the contracts do not decide (stated per property)",
+    "exploration": "bounded stand-in: run-time contract check over an exhaustive bounded enumeration against an RFC-derived oracle (the deciding functions are outside the deductive verifier's reach; contracts on the functions around them are discharged where they exist)",
 }
 checks = []
 for pid in props:
@@ -43,8 +43,8 @@ m = {
               "baseline_off_cmd": "cd /repo && /venv/bin/python -m pytest -ra -q -p no:cacheprovider --timeout=900 --continue-on-collection-errors",
               "source_commits": [], "add_only": True},
     "engines": [
-        {"name": "pyvc", "path": "/verif/pyvc", "serves_properties": [p for p in claimed if levels[p]["level"] in ("proof", "other")],
-         "kind_free_text": "AST->SMT verification-condition generator with sidecar contracts (requires/ensures/yields/raises/loop invariants), modular calls, ground unfolding of executable spec functions, z3 back end"},
+        {"name": "pyvc", "path": "/verif/pyvc", "serves_properties": [p for p in claimed if levels[p]["level"] in ("proof", "other") or p in ("C11",)],
+         "kind_free_text": "AST->SMT verification-condition generator with sidecar contracts (requires/ensures/yields/raises/loop invariants/in-place updates), modular calls, ground unfolding of executable spec functions, lemmas by induction, z3 back end with a theory-abstraction rung; syntactic frame obligations read from /repo's AST"},
         {"name": "effects", "path": "/verif/effects", "serves_properties": [p for p in claimed if levels[p].get("frame")],
          "kind_free_text": "static frame/effect contract checker (rules W1-W5) over the package call graph"},
         {"name": "bounded", "path": "/verif/bounded", "serves_properties": claimed,
